@@ -203,11 +203,28 @@ def err_reaches_exit(ctx):
 
 
 # ------------------------------------------------------------------ C10
+def _joined_termination_sends(f, b):
+    """awaits of `join_all(<iterator>.map(|h| h.termination_sender.send(TerminationMessage)))`: [(await, atoms of the joined iterator)]"""
+    out = []
+    for a in awaits(b):
+        if not (a.callee and re.search(r"future::(join_all|try_join_all)$", a.callee)):
+            continue
+        at = set()
+        for x in a.producer[1]["args"]:
+            at |= b.prov.operand_atoms(x)
+        for a_ in at:
+            cb = f.bodies.get(a_[1]) if a_[0] == "closure" else None
+            if cb is not None and any(tyname(s[2]) == "TerminationMessage" for s in send_calls(cb)):
+                out.append((a, at))
+                break
+    return out
+
+
 def shutdown_fns(ctx):
     f = ctx.f
     out = []
     for b in f.user_bodies():
-        if b.coroutine and any(tyname(s[2]) == "TerminationMessage" for s in send_calls(b)) and "TargetActors" in (ctx.r.fn_of(b).locals[1]["ty"] if ctx.r.fn_of(b).argc else "") + ctx.r.fn_of(b).name:
+        if b.coroutine and (any(tyname(s[2]) == "TerminationMessage" for s in send_calls(b)) or _joined_termination_sends(f, b)) and "TargetActors" in (ctx.r.fn_of(b).locals[1]["ty"] if ctx.r.fn_of(b).argc else "") + ctx.r.fn_of(b).name:
             out.append(b)
     return out
 
@@ -227,6 +244,10 @@ def terminate_all(ctx):
             other = [e for e in exits if not (ne is not None and e.src == ne.src and e.dst == ne.dst)]
             whole = any(c.endswith("HashMap::<K, V, S>::values") or c.endswith("::values") or c.endswith("::iter") for c in atom_callres(it_atoms)) and not any(re.search(r"::(take|skip|filter|step_by)$", c) for c in atom_callres(it_atoms))
             if not other and whole:
+                ok = True
+        # ... or all at once: `join_all(handles.values().map(|h| h.termination_sender.send(TerminationMessage))).await`
+        for (a, at) in _joined_termination_sends(f, b):
+            if any(c.endswith("::values") or c.endswith("::iter") or c.endswith("::values_mut") for c in atom_callres(at)) and not [c for c in atom_callres(at) if re.search(RESTRICTING, c)]:
                 ok = True
         ctx.check(ok, f"{short(b.name)}/all-handles", [b.loc()], "the termination message is not sent to every stored actor handle (partial loop or early exit)")
     # join_all awaited over the join-handle vector, after the termination messages
@@ -407,6 +428,8 @@ def loop_only_left_on_termination(ctx):
         for e in exits:
             if a.term(e.dst)["k"] in ("unreachable",) or a.blocks[e.dst].get("cleanup"):
                 continue
+            if not any(a.term(x)["k"] == "return" for x in a.reach_from(e.dst) | {e.dst}):
+                continue   # into a panic (a failed `debug_assert!`): the actor does not go on to finish
             n += 1
             if e.src in arm.region or e.src == arm.edge.dst or e.dst in arm.region:
                 continue
